@@ -833,6 +833,15 @@ impl Sim {
                 if was_blocked_try {
                     viol.push("C18 try_update keeps running after try_lock reported WouldBlock".into());
                 }
+                if call == Call::Snapshot {
+                    if let Some(seen) = th.start_seen {
+                        let n_now = self.mem[SEQ].len().saturating_sub(1);
+                        let bound = 4 * (1 + n_now.saturating_sub(seen));
+                        if th.own_steps >= bound {
+                            viol.push(format!("C18 snapshot still running after {} of its own steps (bound {})", th.own_steps, bound));
+                        }
+                    }
+                }
             }
         }
         if !sc {
@@ -1307,7 +1316,7 @@ impl Family for AbtFamily {
             }
         }
         // (iii) oracle: bounded exhaustive schedule x reads-from exploration of the real functions
-        let budget = if thorough { 3_000_000 } else { 150_000 };
+        let budget = if thorough { 250_000 } else { 100_000 };
         let mut explores = vec![
             format!("explore ra {} u5/s,s", budget),
             format!("explore ra {} u5,u7/s", budget),
